@@ -387,14 +387,14 @@ noncomputable def e1_trg (T1_trg : ℝ) : ℝ :=
 noncomputable def ep_trg (T2_trg : ℝ) (T1_trg : ℝ) : ℝ :=
   (if T2_trg = (0 : ℝ) then (0 : ℝ) else (Real.sqrt (((1 : ℝ) / 2) * ((QG.Gen.CR.tg / T2_trg) - ((if T1_trg ≠ (0 : ℝ) then (QG.Gen.CR.tg / T1_trg) else (0 : ℝ)) / (2 : ℝ))))))
 
-noncomputable def det3 (theta : ℝ) (t_cr : ℝ) : ℝ :=
-  (if theta = (0 : ℝ) then (QG.Gen.CR.a t_cr) else (((QG.Gen.CR.a t_cr) / ((2 : ℝ) * theta)) * (theta + (Real.sin theta))))
+noncomputable def det1 (F : ℝ → ℝ) (theta : ℝ) (t_cr : ℝ) : ℝ :=
+  (QG.Spec.integ F QG.Gen.g3 theta (QG.Gen.CR.a t_cr))
 
-noncomputable def det2 (theta : ℝ) (t_cr : ℝ) : ℝ :=
-  (if theta = (0 : ℝ) then (0 : ℝ) else (((QG.Gen.CR.a t_cr) / theta) * ((1 : ℝ) - (Real.cos theta))))
+noncomputable def det2 (F : ℝ → ℝ) (theta : ℝ) (t_cr : ℝ) : ℝ :=
+  (QG.Spec.integ F QG.Gen.g6 theta (QG.Gen.CR.a t_cr))
 
-noncomputable def det1 (theta : ℝ) (t_cr : ℝ) : ℝ :=
-  (if theta = (0 : ℝ) then (0 : ℝ) else ((((QG.Gen.CR.a t_cr) * theta) - ((QG.Gen.CR.a t_cr) * (Real.sin theta))) / ((2 : ℝ) * theta)))
+noncomputable def det3 (F : ℝ → ℝ) (theta : ℝ) (t_cr : ℝ) : ℝ :=
+  (QG.Spec.integ F QG.Gen.g7 theta (QG.Gen.CR.a t_cr))
 
 /-- environment: drive atoms `c s e eb i` (see file header), named scalars and Gaussian samples used by the matrices -/
 structure Env (K : Type) where
@@ -531,9 +531,9 @@ noncomputable def envOf (F : ℝ → ℝ) (theta : ℝ) (phi : ℝ) (t_cr : ℝ)
     Ip_trg_1 := ((w.Ip_trg_1 : ℝ) : ℂ),
     Ip_trg_2 := ((w.Ip_trg_2 : ℝ) : ℂ),
     a := ((a t_cr : ℝ) : ℂ),
-    det1 := ((det1 theta t_cr : ℝ) : ℂ),
-    det2 := ((det2 theta t_cr : ℝ) : ℂ),
-    det3 := ((det3 theta t_cr : ℝ) : ℂ),
+    det1 := ((det1 F theta t_cr : ℝ) : ℂ),
+    det2 := ((det2 F theta t_cr : ℝ) : ℂ),
+    det3 := ((det3 F theta t_cr : ℝ) : ℂ),
     ed_cr := ((ed_cr p_cr t_cr : ℝ) : ℂ),
     Idx_ctr_1 := ((w.Idx_ctr_1 : ℝ) : ℂ),
     Idx_ctr_2 := ((w.Idx_ctr_2 : ℝ) : ℂ),
@@ -649,7 +649,7 @@ noncomputable def cov_Idy_trg_1 (F : ℝ → ℝ) (theta : ℝ) (t_cr : ℝ) : M
 noncomputable def cov_Idz_trg_1 (F : ℝ → ℝ) (theta : ℝ) (t_cr : ℝ) : Matrix (Fin 2) (Fin 2) ℝ :=
   !![(QG.Spec.integ F QG.Gen.g4 theta (QG.Gen.CR.a t_cr)), (QG.Spec.integ F QG.Gen.g5 theta (QG.Gen.CR.a t_cr)); (QG.Spec.integ F QG.Gen.g5 theta (QG.Gen.CR.a t_cr)), (QG.Spec.integ F QG.Gen.g0 theta (QG.Gen.CR.a t_cr))]
 
-attribute [qg_unfold] tg a ed_cr e1_ctr ep_ctr e1_trg ep_trg det3 det2 det1 U Ir_ctr Ir_trg Ip_ctr Ip_trg deterministic_r_ctr deterministic_r_trg Idx_ctr Idy_ctr Idz_ctr Idx_trg Idy_trg Idz_trg driftArg noiseArg envOf gate construct cov_Ir_ctr_1 cov_Ir_trg_1 std_Wp_ctr cov_Ip_trg_1 cov_Idx_ctr_1 cov_Idy_ctr_1 std_Wdz_ctr cov_Idx_trg_1 cov_Idy_trg_1 cov_Idz_trg_1
+attribute [qg_unfold] tg a ed_cr e1_ctr ep_ctr e1_trg ep_trg det1 det2 det3 U Ir_ctr Ir_trg Ip_ctr Ip_trg deterministic_r_ctr deterministic_r_trg Idx_ctr Idy_ctr Idz_ctr Idx_trg Idy_trg Idz_trg driftArg noiseArg envOf gate construct cov_Ir_ctr_1 cov_Ir_trg_1 std_Wp_ctr cov_Ip_trg_1 cov_Idx_ctr_1 cov_Idy_ctr_1 std_Wdz_ctr cov_Idx_trg_1 cov_Idy_trg_1 cov_Idz_trg_1
 
 end CR
 
